@@ -94,35 +94,86 @@ def _trace_cfg(path, prop, open_names):
     ])
 
 
+def _tlc_chunks(prop_mode, open_names, items, wd, tag, chunk=700, par=6):
+    """Run Trace_Doc.tla over `items` (list of dicts), split into chunks that are validated by
+    parallel single-worker TLC processes.  -> list of (chunk_offset, TlcResult, n_items)"""
+    from concurrent.futures import ThreadPoolExecutor
+    cfgname = "Trace_Doc.%s.%d.cfg" % (tag, os.getpid())
+    cfg = os.path.join(C.SPEC, cfgname)
+    _trace_cfg(cfg, prop_mode, open_names)
+    jobs = []
+    for k in range(0, len(items), chunk):
+        part = items[k:k + chunk]
+        path = os.path.join(wd, "%s.%d.trace" % (tag, k))
+        with open(path, "w") as f:
+            for e in part:
+                f.write(json.dumps(e, separators=(",", ":")) + "\n")
+        jobs.append((k, path, len(part)))
+
+    def one(job):
+        k, path, n = job
+        to_file = path + ".out" if prop_mode == "RENDER" else None
+        res = C.run_tlc("Trace_Doc", cfgname, "%s%d" % (tag, k), env={"TRACE": path}, workers=1, deque=True,
+                        timeout=3000, xmx="3g", to_file=to_file, keep_tags=["REPLAY"] if to_file else None)
+        C.tlc_must_pass(res, "Trace_Doc")
+        for t, v in res.lines:
+            if t == "TRUNCATED":
+                raise C.ToolError("trace validation consumed only part of the trace: %s" % (v,))
+        if res.distinct != n + 1:
+            raise C.ToolError("trace validation visited %d states for %d events" % (res.distinct, n))
+        return k, res, n, to_file
+    try:
+        with ThreadPoolExecutor(max_workers=par) as ex:
+            return list(ex.map(one, jobs))
+    finally:
+        os.unlink(cfg)
+
+
 def _judge(out, prop, events, wd, tag):
     """events: list of observation dicts -> verdicts through Trace_Doc.tla"""
     if not events:
-        return None
-    trace = os.path.join(wd, "%s.trace" % tag)
-    with open(trace, "w") as f:
-        for e in events:
-            f.write(json.dumps(e, separators=(",", ":")) + "\n")
-    cfgname = "Trace_Doc.%d.cfg" % os.getpid()
-    cfg = os.path.join(C.SPEC, cfgname)
-    _trace_cfg(cfg, prop, out.open.keys())
-    try:
-        res = C.run_tlc("Trace_Doc", cfgname, tag, env={"TRACE": trace}, workers=1, deque=True,
-                        timeout=3000, xmx="8g")
-    finally:
-        os.unlink(cfg)
-    C.tlc_must_pass(res, "Trace_Doc")
-    for t, v in res.lines:
-        if t == "TRUNCATED":
-            raise C.ToolError("trace validation consumed only part of the trace: %s" % (v,))
-    if res.distinct != len(events) + 1:
-        raise C.ToolError("trace validation visited %d states for %d events" % (res.distinct, len(events)))
-    for t, v in res.lines:
-        if t == "VERDICT":
-            if str(v.get("verdict", "")).startswith("TOOL-"):
-                raise C.ToolError("trace event %s: %s" % (v.get("i"), v.get("verdict")))
-            ev = events[v["i"] - 1]
-            out.verdict(v, {"text": "".join(chr(c) for c in ev["text"]), "event": ev})
-    return res
+        return
+    for k, res, n, _ in _tlc_chunks(prop, out.open.keys(), events, wd, tag):
+        for t, v in res.lines:
+            if t == "VERDICT":
+                if str(v.get("verdict", "")).startswith("TOOL-"):
+                    raise C.ToolError("trace event %s: %s" % (v.get("i"), v.get("verdict")))
+                ev = events[k + v["i"] - 1]
+                v = dict(v)
+                v["i"] = k + v["i"]
+                out.verdict(v, {"text": "".join(chr(c) for c in ev["text"]), "event": ev})
+
+
+RANDOM = {   # doc-record batches: (count, extra args)
+    "quick": [(900, []), (300, ["--cr"])],
+    "thorough": [(20000, []), (4000, ["--cr"])],
+}
+
+
+def random_cases(wd, tier, out=None):
+    """Seeded random token sequences + token edits from the harness, decided and rendered by the
+    specification (Trace_Doc.tla in render mode).  -> path of a REPLAY file"""
+    items = []
+    for b, (count, extra) in enumerate(RANDOM[tier]):
+        path = os.path.join(wd, "rec%d.ndjson" % b)
+        C.run_harness(["doc-record", "--seed", str(C.seed() * 100 + b), "--count", str(count), "--out", path]
+                      + extra)
+        items += C.read_ndjson(path)
+    replay = os.path.join(wd, "random.replay")
+    insane = 0
+    with open(replay, "w") as f:
+        for k, res, n, part in _tlc_chunks("RENDER", [], items, wd, "docrender"):
+            insane += sum(1 for t, _ in res.lines if t == "INSANE")
+            with open(part) as g:
+                for line in g:
+                    f.write(line)
+    if insane * 20 > len(items):
+        raise C.ToolError("doc-record produced %d of %d token sequences the surface syntax cannot write"
+                          % (insane, len(items)))
+    if out is not None:
+        out.extra["random_token_sequences"] = len(items)
+        out.extra["random_skipped_unwritable"] = insane
+    return replay
 
 
 def _relevant(prop, e):
@@ -148,6 +199,10 @@ def run(prop, tier):
     wd = C.workdir("docs" + prop)
     try:
         replay = mc_cases(wd, tier, out)
+        rnd = random_cases(wd, tier, out)
+        with open(replay, "a") as f, open(rnd) as g:
+            for line in g:
+                f.write(line)
         obs = os.path.join(wd, "docs.obs")
         C.run_harness(["doc-replay", "--in", replay, "--out", obs])
         events = C.read_ndjson(obs)
